@@ -80,10 +80,10 @@ def applicable(c, sh):
             return ['Valid', 'NotOrtho']
         if d == (3, 3):
             return ['Valid', 'NotOrtho', 'Reflect']
-        if d == (4, 4):
-            return ['Valid', 'NotOrtho', 'Reflect', 'BadRow']
-        if len(d) == 2 and d[1] == 4:                                      # UnitQuaternion(N x 4 array of rows), N <> 4
-            return ['AltForm']
+        if d == (4, 4):           # a valid SE(3) matrix, or -- any other 4x4 -- the documented N x 4 form with N = 4
+            return ['Valid', 'AltForm', 'ZeroRow']
+        if len(d) == 2 and d[1] == 4:                                      # UnitQuaternion(N x 4 array of quaternion rows)
+            return ['AltForm', 'ZeroRow']
         return ['WrongShape']
     m = 6 if c == 'cTw3' else 3
     k = 4 if c == 'cTw3' else 3
@@ -170,8 +170,16 @@ def make_item(rng, c, sh, tag):
     if c == 'cUQ':
         if sh == ('Sq', 3):
             return bad_rot(rng, 3, tag)
-        if sh == ('Sq', 4):
+        if sh == ('Sq', 4) and tag == 'Valid':
             return hom(rng, 3, tag)
+        if len(shape) == 2 and shape[1] == 4:       # N x 4 quaternion rows; for N = 4 mostly SE(3)-like matrices that fail ishom
+            if shape[0] == 4 and rng.random() < 0.75:
+                X = hom(rng, 3, str(rng.choice(['NotOrtho', 'Reflect', 'BadRow'])))
+            else:
+                X = rng.normal(size=shape) * log_uniform(rng, 1e-3, 1e3)
+            if tag == 'ZeroRow':
+                X[rng.integers(shape[0])] = 0.0 if rng.random() < 0.7 else rand_unit(rng, 4) * log_uniform(rng, 1e-30, 1e-15)
+            return X
         if sh == ('Vec', 4):
             q = rand_unit(rng, 4)
             if tag == 'NotOrtho':
@@ -408,7 +416,11 @@ def fn_skeleton(path, name, cls=None):
     for a, d in zip(pos[len(pos) - len(f.args.defaults):], f.args.defaults):
         defaults[a.arg] = d.value if isinstance(d, ast.Constant) else ('<expr>', ast.dump(d))
     body = [st for st in f.body if not (isinstance(st, ast.Expr) and isinstance(st.value, ast.Constant))]
-    return defaults, _stmts(body)
+    # argument-normalising calls anywhere in the body (getvector(q, 4) converts and raises ValueError for another length):
+    # recorded independently of their position, so a temporary holding the result does not change the skeleton
+    norm = sorted(['normalise', _dotted(n.func)] + [_side(x) for x in n.args[1:]] for st in body for n in ast.walk(st)
+                  if isinstance(n, ast.Call) and _dotted(n.func).split('.')[-1] in ('getvector', 'getmatrix'))
+    return defaults, _stmts(body) + norm
 
 
 _N, _3, _2, _V, _Q = ('spatialmath/base/transformsNd.py', 'spatialmath/base/transforms3d.py', 'spatialmath/base/transforms2d.py',
@@ -444,11 +456,12 @@ MODELLED = [
     (_V, 'iszero', None, 'iszero_tol', [['return', _LT]]),
     (_V, 'isunittwist', None, 'isunittwist_tol',
      [['if', ['Eq', 'expr', 'const:6'],
-       [['return', ['or', ['call', 'isunitvec', [['tol', 'tol']]], ['and', _LT, ['call', 'isunitvec', [['tol', 'tol']]]]]]], [['raise']]]]),
+       [['return', ['or', ['call', 'isunitvec', [['tol', 'tol']]], ['and', _LT, ['call', 'isunitvec', [['tol', 'tol']]]]]]], [['raise']]], ['normalise', 'getvector']]),
     (_V, 'isunittwist2', None, 'isunittwist2_tol',
      [['if', ['Eq', 'expr', 'const:3'],
-       [['return', ['or', ['call', 'isunitvec', [['tol', 'tol']]], ['and', _LT, ['call', 'isunitvec', [['tol', 'tol']]]]]]], [['raise']]]]),
-    (_Q, 'isunit', None, 'isunit_tol', [['return', ['call', 'base.isunitvec', [['tol', 'tol']]]]]),
+       [['return', ['or', ['call', 'isunitvec', [['tol', 'tol']]], ['and', _LT, ['call', 'isunitvec', [['tol', 'tol']]]]]]], [['raise']]], ['normalise', 'getvector']]),
+    # isunitvec(getvector(q, 4), tol=tol): the length test is part of the skeleton; the model (isunit_q) is typed on 4-vectors
+    (_Q, 'isunit', None, 'isunit_tol', [['return', ['call', 'base.isunitvec', [['tol', 'tol']]]], ['normalise', 'base.getvector', 'const:4']]),
     ('spatialmath/twist.py', 'isvalid', 'Twist3', None, _TW_ISVALID),
     ('spatialmath/twist.py', 'isvalid', 'Twist2', None, _TW_ISVALID),
     ('spatialmath/quaternion.py', 'isvalid', 'UnitQuaternion', None,
@@ -900,6 +913,19 @@ def oracle_pred(ctx):
         rej('isunit', 'zero quaternion', base.isunit(np.zeros(4)), np.zeros(4))
         qn = uq1 * (1 + abs(m) + 1e-6)
         rej('isunit', 'norm', base.isunit(qn), qn)
+        # wrong length / shape: rejected with ValueError (fix 3312c9b), never answered True
+        for bad in (rand_unit(rng, 3), rand_unit(rng, 5), np.eye(2), np.r_[1.0], list(rand_unit(rng, 6))):
+            ctx.case(('isunit-len', np.shape(bad), i))
+            ctx.count('oracle:isunit-length')
+            try:
+                r_ = base.isunit(bad)
+                ctx.fail('oracle:isunit:wrong-length-not-rejected', f"base.isunit of an argument of shape {np.shape(bad)} returned {r_} instead of raising ValueError",
+                         {'inputs_hex': hexes(bad), 'shape': list(np.shape(bad))})
+            except ValueError:
+                pass
+            except Exception as ex:  # noqa
+                ctx.fail(f'oracle:isunit:wrong-length:{type(ex).__name__}', f"base.isunit of an argument of shape {np.shape(bad)} raised {type(ex).__name__}, not ValueError",
+                         {'inputs_hex': hexes(bad), 'shape': list(np.shape(bad))})
     ctx.sample({'kind': 'oracle-pred', 'reflection': Rf.tolist(), 'isR': bool(base.isR(Rf))})
 
 
@@ -910,9 +936,6 @@ COQ_HDR = "From Coq Require Import List.\nImport ListNotations.\nFrom SM Require
 
 
 def reason_key(c, form, reason, items):
-    if c == 'cUQ' and form == 'bare' and items[0][0] == ('Sq', 4) and reason.startswith('accepts-'):
-        # a 4x4 array that fails ishom (reflected / non-orthonormal rotation block, bad last row) is read as 4 quaternion rows
-        return 'ctor:UnitQuaternion:bare:4x4-failing-ishom-read-as-rows'
     where = GROUP[c] + ':seq' if form != 'bare' else CLS[c].__name__ + ':bare'
     return f'ctor:{where}:{reason}'
 
